@@ -319,6 +319,41 @@ def run(tier, seed):
     }
 
 
+def run_subset(exports, seed):
+    """Conformance part only (probe + export + replay) for a list of (cfg, version, limit): used by the checks of C05, C11
+    and C12 for the concatenated half of those properties (allow_delete refusal, attribute-only sessions flushed at close,
+    copies of a drillhole group). Returns (violations incl. re-observed deviations, coverage dict)."""
+    work = tempfile.mkdtemp(prefix="c04_tlc_")
+    viol, per_cfg = [], {}
+    find_count, find_text = Counter(), {}
+    states = trans = paths = steps = 0
+    try:
+        devs_used, probe_viol = _probe(work)
+        viol += probe_viol
+        for cfg, version, limit in exports:
+            res, g, init = _export(cfg, sorted(devs_used), work)
+            items, out, full, wall = _replay_graph(g, init, version, seed, limit)
+            states += res.distinct
+            trans += res.generated
+            paths += len(items)
+            for it, r in zip(items, out):
+                steps += r["steps"]
+                viol += r["violations"]
+                for sig, text in r["findings"]:
+                    find_count[sig] += 1
+                    find_text.setdefault(sig, (text, it))
+            per_cfg[cfg] = {"states": res.distinct, "transitions": res.generated, "paths": len(items),
+                            "replay_wall_s": round(wall, 1), "complete_cover": full}
+    finally:
+        shutil.rmtree(work, ignore_errors=True)
+    for sig, n in sorted(find_count.items()):
+        text, it = find_text[sig]
+        viol.append({"signature": sig, "summary": f"{text} [seen {n}x]",
+                     "case": {"version": it["version"], "kind": it.get("kind", "float"), "plain_child": it.get("plain_child", False),
+                              "steps": it["steps"], "tail": it["tail"]}})
+    return viol, {"states": states, "transitions": trans, "paths": paths, "steps": steps, "per_config": per_cfg}
+
+
 def replay(doc):
     r = replay_path(doc["case"])
     viol = list(r["violations"])
